@@ -108,6 +108,12 @@ func (b *Body) condFromScan(v ssa.Value, base, k ssa.Value, depth int, seen map[
 		if x.Op == token.NOT {
 			b.condFromScan(x.X, base, k, depth+1, seen, info)
 		}
+	case *ssa.Call:
+		// the scan lives in a helper that returns the position of the key (or -1)
+		if b.isKeyIndexCall(x, base, k) {
+			info.found = true
+			info.cmpBlock = nil
+		}
 	case *ssa.Phi:
 		for i, e := range x.Edges {
 			if q, ok := e.(*ssa.Phi); ok && isLoopHeader(q.Block()) && q.Block() != x.Block() {
@@ -586,6 +592,10 @@ func storeAddr(i ssa.Instruction) ssa.Value {
 // condFromScanIndex: idx (used as the removal position) is a phi that takes
 // the loop index on the edge where keys[i] == k.
 func (b *Body) condFromScanIndex(idx ssa.Value, base, k ssa.Value, info *scanInfo) {
+	if call, ok := idx.(*ssa.Call); ok && b.isKeyIndexCall(call, base, k) {
+		info.found = true
+		return
+	}
 	phi, ok := idx.(*ssa.Phi)
 	if !ok {
 		return
@@ -1256,4 +1266,66 @@ func sameKeyValue(a, b ssa.Value) bool {
 		}
 	}
 	return true
+}
+
+
+// isKeyIndexCall: call is h(base, k) (receiver first) where h scans the keys
+// of its receiver for its string parameter and returns the index at which it
+// found it, or the constant -1.
+func (b *Body) isKeyIndexCall(call *ssa.Call, base, k ssa.Value) bool {
+	h := call.Call.StaticCallee()
+	if h == nil || h.Blocks == nil || len(h.Params) != 2 || len(call.Call.Args) != 2 {
+		return false
+	}
+	if !sameBase(call.Call.Args[0], base) || call.Call.Args[1] != k {
+		return false
+	}
+	if h.Signature.Results().Len() != 1 {
+		return false
+	}
+	if bt, ok := h.Signature.Results().At(0).Type().Underlying().(*types.Basic); !ok || bt.Kind() != types.Int {
+		return false
+	}
+	recv, kp := ssa.Value(h.Params[0]), ssa.Value(h.Params[1])
+	nFound := 0
+	for _, r := range liveReturns(h) {
+		v := r.Results[0]
+		if c, ok := intConst(v); ok {
+			if c != -1 {
+				return false
+			}
+			continue
+		}
+		ok := false
+		for _, bb := range h.Blocks {
+			iff, isIf := bb.Instrs[len(bb.Instrs)-1].(*ssa.If)
+			if !isIf {
+				continue
+			}
+			bo, isBo := iff.Cond.(*ssa.BinOp)
+			if !isBo || bo.Op != token.EQL {
+				continue
+			}
+			var elem ssa.Value
+			if bo.Y == kp {
+				elem = bo.X
+			} else if bo.X == kp {
+				elem = bo.Y
+			} else {
+				continue
+			}
+			if !elemOfKeys(elem, recv) {
+				continue
+			}
+			ia, isIA := loadOf(elem).(*ssa.IndexAddr)
+			if isIA && ia.Index == v && (bb.Succs[0] == r.Block() || edgeDominates(bb, 0, r.Block())) {
+				ok = true
+			}
+		}
+		if !ok {
+			return false
+		}
+		nFound++
+	}
+	return nFound > 0
 }
